@@ -39,6 +39,10 @@ var OutDir = func() string {
 	return VerifDir
 }()
 
+// realStderr is file descriptor 2 itself: the test bed points the os.Stderr VARIABLE at
+// /dev/null to silence orda's loggers, but watchdog dumps must reach the driver.
+var realStderr = os.NewFile(2, "/dev/stderr")
+
 // Verdicts
 const (
 	Held         = "held"
@@ -265,7 +269,7 @@ func memoryWatchdog() {
 		if rss > limitPages {
 			buf := make([]byte, 256<<10)
 			n := runtime.Stack(buf, true)
-			fmt.Fprintf(os.Stderr, "fatal error: MEMORY-WATCHDOG resident set above limit (runaway allocation in the case in progress)\n%s\n", buf[:n])
+			fmt.Fprintf(realStderr, "fatal error: MEMORY-WATCHDOG resident set above limit (runaway allocation in the case in progress)\n%s\n", buf[:n])
 			os.Exit(3)
 		}
 	}
@@ -303,7 +307,7 @@ func RunCase(p *Prop, tier string, seed uint64, i int, stepsPath string) *Result
 		// case watchdog: dump goroutines to stderr for the driver, report inconclusive
 		buf := make([]byte, 1<<20)
 		n := runtime.Stack(buf, true)
-		fmt.Fprintf(os.Stderr, "CASE-WATCHDOG property=%s case=%d\n%s\n", p.ID, i, buf[:n])
+		fmt.Fprintf(realStderr, "CASE-WATCHDOG property=%s case=%d\n%s\n", p.ID, i, buf[:n])
 		// copy what we can without racing too badly with the stuck goroutine
 		r := &Result{Index: i, Verdict: Inconclusive, Msg: "case watchdog fired after " + to.String()}
 		return r
@@ -860,6 +864,10 @@ func finish(a *Agg, start time.Time, partial bool) int {
 			sb = append(sb, fmt.Sprintf("%s=%d", k, a.Counters[k]))
 		}
 		fmt.Printf("  observed: %s\n", strings.Join(sb, " "))
+	}
+	if n := a.Counters["harness_internal_errors"]; n > 0 {
+		fmt.Printf("BROKEN-CHECK property=%s %d internal errors of the harness' own stand-ins during this run: verdict withheld\n", p.ID, n)
+		return 2
 	}
 	if unknown > 0 {
 		return 1
